@@ -117,9 +117,9 @@ def gen_ir(r, maxp=5, kwargs=True, returns=True, rich=True, p_typ=0.85, p_doc=0.
     ret = None
     if returns and r.random() < 0.5:
         rt = {}
-        if r.random() < 0.85:
+        if r.random() < p_typ:
             rt["typ"] = gen_type(r, rich=rich)
-        if r.random() < 0.85:
+        if r.random() < p_doc:
             rt["doc"] = prose(r, rich=rich)
         if rich and r.random() < 0.25:
             rt["default"] = r.choice(["```np.empty(0)```", "```(1, 2)```", "```x```"])
